@@ -963,4 +963,154 @@ theorem len_eq_length_partial (l : Nat) (dt : Int) (hdt : 0 < dt) (hl : 0 < l)
     (hfit : (l : Int) * dt < 2 ^ 53) : arangeLen ((l : Int) * dt) dt = l :=
   arangeLen_exact l dt hdt hl hfit
 
+/-! ### round 4 (class L9): the length check of `TimeSeries(data, time=axis)` as an exact predicate
+
+`mkSeriesFromTime` refuses exactly when the lengths differ AND the axis' rate is not bit-for-bit the
+reconciling rate `float(m·c)/duration`; whatever the lengths are.  A relative tolerance in that
+comparison (`mkSeriesFromTimeTol`, numpy's `isclose` defaults) has a reach that grows with the length:
+from 10⁵ samples on an axis off by one sample is accepted. -/
+
+/-- the start a series built with `time=` reports: the axis' own, or the `t0` argument cast in the series' unit -/
+def fromTimeT0 (ax : Axis) (u : TimeUnit) : Option TArg → Int
+  | none => ax.t0
+  | some t => targPs u t
+
+/-- the axis a series built with `time=` lays out: `m` samples from that start at the axis' interval -/
+def fromTimeSpec (ax : Axis) (m : Nat) (u : TimeUnit) (t0 : Option TArg) : Spec :=
+  { length := some m, t0 := some (.tobj (fromTimeT0 ax u t0) u), interval := some (.tobj ax.dt u), unit := .ok u }
+
+/-- `TimeSeries(data_m, time=axis[, t0][, time_unit])`, no rate / interval / duration given, unit accepted, the axis of
+`m` samples can be laid out (Δ > 0): the call is ACCEPTED iff the axis has `m` samples or its rate is bit-for-bit
+the reconciling rate, and it raises `ValueError` iff the lengths differ and the rate is not that one — an exact
+predicate, the same at every length -/
+theorem length_mismatch_rejected_exactly {v : Variant} {ax : Axis} {m : Nat} {t0 : Option TArg} {u : UArg}
+    {uo : Option TimeUnit} (hu : checkUnit u = .ok uo)
+    (hlay : ∃ time, mkUniform v (fromTimeSpec ax m (uo.getD ax.unit) t0) = .ok time) :
+    ((∃ sr, mkSeriesFromTime v ax m t0 u = .ok sr) ↔ (ax.n = m ∨ ax.rate = reconcilingRate v ax m)) ∧
+    (mkSeriesFromTime v ax m t0 u = .error .valueError ↔
+      (ax.n ≠ m ∧ ax.rate ≠ reconcilingRate v ax m)) := by
+  obtain ⟨time, htime⟩ := hlay
+  unfold mkSeriesFromTime
+  simp only [hu, bind, Except.bind, pure, Except.pure]
+  by_cases hc : ax.n ≠ m ∧ ax.rate ≠ reconcilingRate v ax m
+  · rw [if_pos hc]
+    simp only [throw, throwThe, MonadExceptOf.throw]
+    refine And.intro (Iff.intro (fun h => ?_) (fun h => ?_)) (Iff.intro (fun _ => hc) (fun _ => trivial))
+    · obtain ⟨sr, h⟩ := h
+      cases h
+    · rcases h with h | h
+      · exact absurd h hc.1
+      · exact absurd h hc.2
+  · rw [if_neg hc]
+    have hor : ax.n = m ∨ ax.rate = reconcilingRate v ax m := by
+      by_cases h1 : ax.n = m
+      · exact .inl h1
+      · by_cases h2 : ax.rate = reconcilingRate v ax m
+        · exact .inr h2
+        · exact absurd ⟨h1, h2⟩ hc
+    cases t0 <;> simp only [fromTimeSpec, fromTimeT0] at htime <;> simp only [htime] <;>
+      exact And.intro (Iff.intro (fun _ => hor) (fun _ => ⟨_, rfl⟩))
+        (Iff.intro (fun h => by cases h) (fun h => absurd h hc))
+
+/-- an axis of `n` samples at 1000 Hz from 0 s (interval 10⁹ ps), as the constructor reports it -/
+def axKHz (n : Nat) : Axis :=
+  { t0 := 0, dt := 1000000000, n := n, dur := (n : Int) * 1000000000, rate := 1000, unit := .s }
+
+example : mkUniform .intended { length := some 100000, rate := some (.num (.flt 1000)), unit := .ok .s }
+    = .ok (axKHz 100000) := by decide +kernel
+
+/-- non-vacuity of `length_mismatch_rejected_exactly` (its hypotheses hold on the 10⁵-sample axis) -/
+example : mkSeriesFromTime .intended (axKHz 100000) 100001 none (.ok .s) = .error .valueError :=
+  (length_mismatch_rejected_exactly (uo := some .s) rfl ⟨axKHz 100001, by decide +kernel⟩).2.2
+    ⟨by decide, by decide +kernel⟩
+
+/-- today's check at the lengths where a relative tolerance would start to matter: 10⁵ vs 10⁵ ± 1, 10⁶+1 vs 10⁶ are
+refused, equal lengths give an axis of exactly `m` samples lasting `m·Δ` -/
+theorem length_mismatch_large_rejected :
+    mkSeriesFromTime .intended (axKHz 100000) 100001 none (.ok .s) = .error .valueError ∧
+    mkSeriesFromTime .intended (axKHz 100000) 99999 none (.ok .s) = .error .valueError ∧
+    mkSeriesFromTime .intended (axKHz 1000001) 1000000 none .none = .error .valueError ∧
+    (mkSeriesFromTime .intended (axKHz 100000) 100000 none (.ok .s)).toOption.map
+      (fun s => (s.time.n, s.time.dur, s.dt)) = some (100000, 100000000000000, 1000000000) := by
+  decide +kernel
+
+/-- the class of change "compare the rate up to rounding" (`isclose`, rtol 10⁻⁵): an axis off by one sample is accepted
+from 10⁵ samples (off by ten from 10⁶), the series' axis then has `m` samples lasting `m·Δ` next to a source axis
+lasting `n·Δ`; below ~10⁵ samples the tolerant and the exact check agree -/
+theorem length_mismatch_tolerance_counterexample :
+    -- with `isclose`: 10⁵+1 data samples on an axis of 10⁵ are ACCEPTED; the series' axis has 10⁵+1 samples
+    -- covering (10⁵+1)·Δ while the axis it was given lasts 10⁵·Δ (what `series.duration` then reports)
+    (mkSeriesFromTimeTol .intended (axKHz 100000) 100001 none (.ok .s)).toOption.map
+      (fun s => (s.time.n, s.time.dur)) = some (100001, 100001000000000) ∧
+    (axKHz 100000).dur = 100000000000000 ∧
+    (mkSeriesFromTimeTol .intended (axKHz 1000000) 1000010 none (.ok .s)).toOption.map (·.time.n) = some 1000010 ∧
+    -- the exact check refuses both
+    mkSeriesFromTime .intended (axKHz 100000) 100001 none (.ok .s) = .error .valueError ∧
+    mkSeriesFromTime .intended (axKHz 1000000) 1000010 none (.ok .s) = .error .valueError ∧
+    -- at small lengths the two agree (why small refusal tests do not tell them apart)
+    mkSeriesFromTimeTol .intended (axKHz 1000) 1001 none (.ok .s) = .error .valueError ∧
+    mkSeriesFromTime .intended (axKHz 1000) 1001 none (.ok .s) = .error .valueError ∧
+    mkSeriesFromTimeTol .intended (axKHz 99998) 99999 none (.ok .s) = .error .valueError ∧
+    mkSeriesFromTimeTol .intended (axKHz 100000) 100000 none (.ok .s) =
+      mkSeriesFromTime .intended (axKHz 100000) 100000 none (.ok .s) := by
+  decide +kernel
+
+/-- `TimeSeries(data_m, time=axis, sampling_rate=r …)`: with lengths that differ, the call is refused unless the
+explicit rate is bit-for-bit the reconciling rate — and whatever is accepted passed that test -/
+theorem explicit_rate_length_check {v : Variant} {ax : Axis} {m : Nat} {t0 : Option TArg} {r : RArg} {u : UArg} :
+    (ax.n ≠ m → rateValue r ≠ reconcilingRate v ax m →
+      mkSeriesFromTimeRate v ax m t0 r u = .error .valueError) ∧
+    (∀ sr, mkSeriesFromTimeRate v ax m t0 r u = .ok sr → ax.n = m ∨ rateValue r = reconcilingRate v ax m) := by
+  unfold mkSeriesFromTimeRate
+  simp only [bind, Except.bind]
+  constructor
+  · intro h1 h2
+    cases hu : checkUnit u with
+    | error e => cases u <;> simp_all [checkUnit]
+    | ok uo => simp [h1, h2, throw, throwThe, MonadExceptOf.throw]
+  · intro sr h
+    cases hu : checkUnit u with
+    | error e => rw [hu] at h; cases h
+    | ok uo =>
+      rw [hu] at h
+      by_cases hc : ax.n ≠ m ∧ rateValue r ≠ reconcilingRate v ax m
+      · simp [hc, throw, throwThe, MonadExceptOf.throw] at h
+      · by_cases h1 : ax.n = m
+        · exact .inl h1
+        · by_cases h2 : rateValue r = reconcilingRate v ax m
+          · exact .inr h2
+          · exact absurd ⟨h1, h2⟩ hc
+
+/-- down-sampling 5·10⁵ samples at 1000 Hz to 10⁵ at 200 Hz is accepted (10⁵ samples lasting the same 500 s);
+7 × the rate, or 10⁵+1 samples at 200 Hz, is refused -/
+example :
+    (mkSeriesFromTimeRate .intended (axKHz 500000) 100000 none (.num (.flt 200)) (.ok .s)).toOption.map
+      (fun s => (s.time.n, s.time.dur, s.dt)) = some (100000, 500000000000000, 5000000000) ∧
+    mkSeriesFromTimeRate .intended (axKHz 500000) 100000 none (.num (.flt 1400)) (.ok .s) = .error .valueError ∧
+    mkSeriesFromTimeRate .intended (axKHz 500000) 100001 none (.num (.flt 200)) (.ok .s) = .error .valueError := by
+  decide +kernel
+
+/-- a 1000 Hz axis labelled in MILLISECONDS -/
+def axKHzMs (n : Nat) : Axis :=
+  { t0 := 0, dt := 1000000000, n := n, dur := (n : Int) * 1000000000, rate := 1000, unit := .ms }
+
+/-- COUNTEREXAMPLE on `.current` (finding 7): today's length check forms the reconciling rate with the AXIS' conversion factor —
+samples per millisecond on a millisecond axis — and compares it with a rate in Hz.  1000 samples at 1000 Hz, data of 200 samples
+with `sampling_rate=200.0` (which fills the second exactly) is REFUSED, 250 samples with `sampling_rate=0.25` are ACCEPTED (250 samples
+4 s apart next to an axis of one second), and data 1000 times longer than the axis are accepted with no rate given at all.  The intended
+check (in Hz) accepts the first and refuses the other two; on seconds axes the two variants are the same function. -/
+theorem from_time_rate_unit_counterexample :
+    mkSeriesFromTimeRate .current (axKHzMs 1000) 200 none (.num (.flt 200)) .none = .error .valueError ∧
+    (mkSeriesFromTimeRate .current (axKHzMs 1000) 250 none (.num (.flt (1/4))) .none).toOption.map (fun s => (s.time.n, s.dt)) =
+      some (250, 4000000000000) ∧
+    (mkSeriesFromTime .current (axKHzMs 250) 250000 none .none).toOption.map (·.time.n) = some 250000 ∧
+    (mkSeriesFromTimeRate .intended (axKHzMs 1000) 200 none (.num (.flt 200)) .none).toOption.map (fun s => (s.time.n, s.dt)) =
+      some (200, 5000000000) ∧
+    mkSeriesFromTimeRate .intended (axKHzMs 1000) 250 none (.num (.flt (1/4))) .none = .error .valueError ∧
+    mkSeriesFromTime .intended (axKHzMs 250) 250000 none .none = .error .valueError ∧
+    (∀ ax m, ax.unit = .s → reconcilingRate .current ax m = reconcilingRate .intended ax m) := by
+  refine ⟨by decide +kernel, by decide +kernel, by decide +kernel, by decide +kernel, by decide +kernel, by decide +kernel, ?_⟩
+  intro ax m h
+  simp [reconcilingRate, rateFactor, h]
+
 end Nitime.C02.Props
